@@ -80,6 +80,12 @@ pub fn verify_presentation(
     // Ensures the encoded values are same as request
     verify_revealed_attribute_values(pres_req, presentation)?;
 
+    // Ensures the unrevealed attributes are part of the credential they are mapped to
+    verify_unrevealed_attributes(pres_req, presentation, schemas)?;
+
+    // Ensures the proven predicates are the requested ones
+    verify_requested_predicates(pres_req, presentation)?;
+
     // Ensures the restrictions set out in the request is met
     verify_requested_restrictions(
         pres_req,
@@ -342,6 +348,89 @@ fn verify_revealed_attribute_values(
                 err_msg!("Proof Revealed Attr Group does not match Proof Request Attribute Group",)
             })?;
             verify_revealed_attribute_value(attr_name, sub_proof, &attr_info.encoded)?;
+        }
+    }
+    Ok(())
+}
+
+fn verify_unrevealed_attributes(
+    pres_req: &PresentationRequestPayload,
+    proof: &Presentation,
+    schemas: &HashMap<SchemaId, Schema>,
+) -> Result<()> {
+    for (attr_referent, info) in &proof.requested_proof.unrevealed_attrs {
+        let requested = pres_req
+            .requested_attributes
+            .get(attr_referent)
+            .ok_or_else(|| {
+                err_msg!(
+                    ProofRejected,
+                    "Attribute with referent \"{}\" not found in ProofRequests",
+                    attr_referent
+                )
+            })?;
+        let identifier = get_proof_identifier(proof, info.sub_proof_index)?;
+        let schema = schemas.get(&identifier.schema_id).ok_or_else(|| {
+            err_msg!("Schema not provided for ID: {:?}", identifier.schema_id)
+        })?;
+        let names = requested
+            .name
+            .iter()
+            .chain(requested.names.iter().flatten());
+        for name in names {
+            let in_schema = schema
+                .attr_names
+                .0
+                .iter()
+                .any(|attr| attr_common_view(attr) == attr_common_view(name));
+            if !in_schema {
+                return Err(err_msg!(
+                    ProofRejected,
+                    "Attribute with name \"{}\" not found in the credential for referent \"{}\"",
+                    name,
+                    attr_referent
+                ));
+            }
+        }
+    }
+    Ok(())
+}
+
+fn verify_requested_predicates(
+    pres_req: &PresentationRequestPayload,
+    proof: &Presentation,
+) -> Result<()> {
+    for (referent, info) in &proof.requested_proof.predicates {
+        let requested = pres_req.requested_predicates.get(referent).ok_or_else(|| {
+            err_msg!(
+                ProofRejected,
+                "Predicate with referent \"{}\" not found in ProofRequests",
+                referent
+            )
+        })?;
+        let sub_proof = proof
+            .proof
+            .proofs
+            .get(info.sub_proof_index as usize)
+            .ok_or_else(|| {
+                err_msg!(
+                    ProofRejected,
+                    "CryptoProof not found by index \"{}\"",
+                    info.sub_proof_index,
+                )
+            })?;
+        let requested_type = requested.p_type.clone().into();
+        let proven = sub_proof.predicates().iter().any(|predicate| {
+            attr_common_view(&predicate.attr_name) == attr_common_view(&requested.name)
+                && predicate.p_type == requested_type
+                && predicate.value == requested.p_value
+        });
+        if !proven {
+            return Err(err_msg!(
+                ProofRejected,
+                "Predicate with referent \"{}\" is not proven by the CryptoProof",
+                referent
+            ));
         }
     }
     Ok(())
